@@ -84,7 +84,7 @@ prop("C10", "exploration", "MMIO bus trace (safe-mmio custom-mmio backend) check
      "The register table (DESIGN Appendix A) is a transcription of VirtIO 1.2 §4.2.2/§4.2.4 (trusted base). A ConfigGeneration read on a legacy device is tolerated and counted. Rules are rule-based (what must precede what), not trace equality, where the specification leaves order open.",
      "a case is (i) one MmioTransport (legacy or modern, direct or via SomeTransport, random device id / features) driven through 60 random Transport operations with random queue indices {0,1,7,0xffff,..}, sizes 2^0..2^15, 64-bit address triples with bits 31/32/63 forced, "
      "feature words, status and interrupt values, or (ii) one probe of a random header (magic/version/device id drawn from {correct, +-1, 0, all-ones, random, byte-swapped}) with region size in {0,4,0xfc,0xff,0x100,0x101,0x200,0x1000}. "
-     "Non-trivial: at least one bus access or a refusal was observed (always). distinct: 64-bit key of (seed, case number) which determines all generated inputs; counts of checked operations per kind are in observed.op_*.",
+     "Non-trivial: at least one bus access or a refusal was observed (always). distinct: 64-bit content fingerprint of every value the generator handed out for the case (device, operations, arguments; header fields and region size for probes), so probes drawn from the small value sets collapse onto each other; counts of checked operations per kind are in observed.op_*.",
      [stage("checked", scale=8000)], [stage("checked", scale=200000), stage("release", scale=20000)])
 
 prop("C12", "exploration", "reference PCI function model behind ConfigurationAccess logging every config read/write with the decode state; exhaustive CAM address enumeration",
@@ -94,7 +94,7 @@ prop("C12", "exploration", "reference PCI function model behind ConfigurationAcc
      "BAR sizes, addresses and bus populations are sampled (every slot, every power-of-two size class, all 2^10 combinations of the defined command bits by case number, plus functions that implement command bit 7); cyclic capability lists are not generated. Upper halves of 64-bit BARs are never queried directly (caller contract of bars()).",
      "a case is (i) one PCI function with six generated BARs (unimplemented / mem32 / below-1MiB / mem64 up to 2^63 / I/O 32- and 16-bit decode / reserved type, 64-bit in slot 5) and an initial command value, probed with bar_info on every slot or with bars(); "
      "(ii) one capability list (0..12 entries) + one bus population (random subset of 256 functions with random identity fields); (iii) one MmioCam (CAM or ECAM) exercised with 64 register reads; (iv) one exhaustive cam_offset enumeration per mechanism. "
-     "Non-trivial: always (a result or a refusal is compared). distinct: key of (kind, seed, case number), which determines the generated inputs.",
+     "Non-trivial: always (a result or a refusal is compared). distinct: 64-bit content fingerprint of every value the generator handed out for the case (plus the enumerated initial command bits).",
      [stage("checked", scale=8000)], [stage("checked", scale=200000), stage("release", scale=20000)])
 
 prop("C11", "exploration", "independent reference parser (128-bit arithmetic) over generated PCI configuration spaces + MMIO bus trace of every later access",
@@ -106,7 +106,7 @@ prop("C11", "exploration", "independent reference parser (128-bit arithmetic) ov
      "queue_notify_off is kept inside the notify window (a well-formed device); cyclic capability lists are not generated; operations are skipped when hostile-but-valid windows overlap each other.",
      "a case is one generated configuration space: canonical (1/4), canonical with 1..3 hostile mutations (1/2: duplicated capabilities before/after, hostile offset/length/bar/cap_len/multiplier, BAR unallocated or turned into an I/O BAR, list bit cleared), or fully hostile (1/4: 0..8 capabilities of types 0..255 in random order, "
      "cap_len in {0,15,16,19,20,24}, offsets/lengths from {0, small, BAR size -1/0/+1, 2^31, 2^32-1, pairs summing to >= 2^32}, BARs 32/64-bit/I-O/unallocated/unimplemented up to 2^63, capability structures at the very end of configuration space), followed by 40 checked operations and a checked drop when construction succeeds. "
-     "Non-trivial: always (construction reached Ok or Err and was compared with the reference). distinct: key of (seed, case number), which determines the space.",
+     "Non-trivial: always (construction reached Ok or Err and was compared with the reference). distinct: 64-bit content fingerprint of every value the generator handed out for the case (the configuration space and the operations).",
      [stage("checked"), stage("release", scale=500)], [stage("checked", scale=60000), stage("release", scale=15000)])
 
 prop("C13", "exploration", "MMIO bus trace per configuration access (bounds, exact bytes) + versioned configuration store with scheduler-controlled updates between individual reads",
